@@ -152,7 +152,7 @@ def gen_key(g, fmt_pool=KEYFORMATS, allow_sample=True):
     k = {"method": method, "uri": g.pick(["k1", "https://k.example/key?id=7", "k,2=a", "schüssel"]) + str(g.small(5)),
          "iv": g.hexbytes(16) if g.chance(0.4) else None, "format": fmt, "versions": None}
     if g.chance(0.25):
-        k["versions"] = [g.pick([1, 2, 3, 5, 255]) for _ in range(g.r.randint(2, 4))]
+        k["versions"] = [g.pick([1, 2, 3, 5, 255]) for _ in range(g.r.randint(1, 4))]
     return k
 
 
